@@ -24,7 +24,7 @@ BAG = {
     # a script (the first two inputs are joins anyway): a callee that also subscribes is called, stops reading, its queue fills, ...
     "stallseq": '<<"join","join","reg","sub","call","stall","pub","pub","ckill","call","msess","adv","resume","yield","pub","cancel","adv","leave">>',
     # a caller stops reading, its callee yields (held back in the retry loop), ...
-    "retryseq": '<<"join","join","reg","call","stallc","yield","yield","yield","pub","msess","adv","resume","call","yield","leave">>',
+    "retryseq": '<<"join","join","join","reg","call","stallc","yield","yield","yield","pub","msess","adv","resume","call","yield","leave">>',
     "pci": '<<"join","join","reg","reg","unreg","pcall","pcall","pcall","pcall","yield","yield","inverr","cancel","call","leave","adv">>',
     # payload passthru mode: publishers, callers and callees that announced the feature or did not
     "ppt": '<<"join","join","join","reg","reg","call","call","call","answer","answer","answer","pub","pub","sub","sub","leave","adv","cancel">>',
@@ -93,7 +93,7 @@ PROPS = {
                      dict(bag="kill", depth=18, quick=80, thorough=2000),
                      dict(bag="tst", depth=18, quick=80, thorough=1500),
                      dict(bag="mod", depth=16, quick=80, thorough=1500)],
-                classes=["sess", "meta", "metaapi", "rpcreply", "pubsub"]),
+                classes=["sess", "meta", "metaapi", "rpcreply", "pubsub"], poison=True),
     "C20": dict(family="core",
                 mc=dict(kinds=["join", "sub", "unsub", "pub", "leave"], inv=MC_PUBSUB + ["C20_Retention"],
                         quick=dict(steps=5, nsess=2), thorough=dict(steps=6, nsess=3), mode="hist"),
@@ -366,6 +366,8 @@ def combine_realms(scns, seed, prop):
         for si, st in enumerate(steps):
             if st.get("r") == victim and st["op"] == "stall":
                 stalled = True
+            if st.get("r") == victim and st["op"] == "resume":
+                stalled = False      # (the caller reads again: a later yield is not held back)
             if st.get("r") == victim and st["op"] == "yield" and stalled:
                 cands.append(si + 1)
         if cands and (held or rnd.random() < 0.8):
